@@ -80,7 +80,7 @@ class VSock:
         self.family = family
         self.type = _socket.SOCK_STREAM
         self.proto = 0
-        self.inq = deque()  # segments sent by the client, not yet received
+        self.inq = bytearray()  # bytes sent by the client, not yet received (the kernel coalesces segments)
         self.eof = False  # client has shut down its sending side (FIN)
         self.reset = None  # errno once the connection is dead
         self.out = bytearray()  # bytes delivered to the client
@@ -94,10 +94,16 @@ class VSock:
         self.send_calls = 0
         self.fd = w.alloc_fd(self)
 
+    def __getstate__(self):
+        # harness bookkeeping (call counters) is not implementation state
+        d = dict(self.__dict__)
+        d["ops"] = d["recv_calls"] = d["send_calls"] = 0
+        return d
+
     # -- environment side (called by scenario scripts) --------------------
     def client_send(self, data):
-        if data:
-            self.inq.append(bytes(data))
+        if data and not self.closed:
+            self.inq += data
 
     def client_eof(self):
         self.eof = True
@@ -177,10 +183,8 @@ class VSock:
         if self.reset is not None:
             raise OSError(self.reset, _os.strerror(self.reset))
         if self.inq:
-            seg = self.inq.popleft()
-            if len(seg) > n:
-                self.inq.appendleft(seg[n:])
-                seg = seg[:n]
+            seg = bytes(self.inq[:n])
+            del self.inq[:n]
             self.w.ev("recv", (self.name, len(seg)))
             return seg
         if self.eof:
